@@ -704,6 +704,53 @@ fn main() {
         },
     );
     {
+        // sums and products over SPECIAL values, bit for bit against the left-to-right fold: a factor 0 does not end a product (what follows
+        // decides its sign, and 0 * inf = NaN), an infinite term does not end a sum (inf - inf = NaN)
+        let sl = [0.0f64, -0.0, 1.0, -2.0, 3.0, f64::INFINITY, f64::NEG_INFINITY, f64::NAN, 0.5];
+        let smax = 4u32;
+        let total: u64 = (0..=smax).map(|k| (sl.len() as u64).pow(k)).sum();
+        ctx.lattice(
+            "Vector<f64> sum / product / sum_slice / product_slice over {0,-0,1,-2,3,inf,-inf,NaN,1/2}: all vectors of length 0..4, every range, bit for bit (NaN for NaN)",
+            total,
+            |idx| format!("{}", idx),
+            |idx, acc| {
+                let mut i = idx;
+                let mut len = 0u32;
+                while i >= (sl.len() as u64).pow(len) {
+                    i -= (sl.len() as u64).pow(len);
+                    len += 1;
+                }
+                let x: Vec<f64> = (0..len).map(|_| {
+                    let v = sl[(i % sl.len() as u64) as usize];
+                    i /= sl.len() as u64;
+                    v
+                }).collect();
+                if x.iter().any(|t| *t == 0.0) && x.iter().any(|t| !t.is_finite() || *t < 0.0) {
+                    acc.nontriv("zero factor next to a negative / non-finite one");
+                } else {
+                    acc.nontriv("special-value sum / product");
+                }
+                judge(acc, idx, || format!("sum/product {:?}", x), || {
+                    let v = Vector::create(x.clone());
+                    let same = |got: f64, want: f64| got.to_bits() == want.to_bits() || (got.is_nan() && want.is_nan());
+                    if !x.is_empty() {
+                        let (ws, wp) = (x.iter().fold(0.0f64, |s, t| s + *t), x.iter().fold(1.0f64, |s, t| s * *t));
+                        ensure!(same(v.sum(), ws), "sum() = {:?} but the terms add up to {:?}", v.sum(), ws);
+                        ensure!(same(v.product(), wp), "product() = {:?} but the factors multiply to {:?}", v.product(), wp);
+                    }
+                    for st in 0..x.len() {
+                        for en in st..x.len() {
+                            let (ws, wp) = (x[st..=en].iter().fold(0.0f64, |s, t| s + *t), x[st..=en].iter().fold(1.0f64, |s, t| s * *t));
+                            ensure!(same(v.sum_slice(st, en), ws), "sum_slice({},{}) = {:?} expected {:?}", st, en, v.sum_slice(st, en), ws);
+                            ensure!(same(v.product_slice(st, en), wp), "product_slice({},{}) = {:?} expected {:?}", st, en, v.product_slice(st, en), wp);
+                        }
+                    }
+                    Ok(())
+                });
+            },
+        );
+    }
+    {
         // absolute value, bit for bit: |x| has a clear sign bit for every x, signed zeros included ("if x < 0 { -x } else { x }" hands -0.0 back)
         let al = [0.0f64, -0.0, 1.0, -2.0, 5e-324, -5e-324, -1e300, f64::MIN_POSITIVE];
         let amax = 4u32;
